@@ -1,6 +1,8 @@
 package dawn
 
 import (
+	"crypto/sha256"
+	"encoding/hex"
 	"fmt"
 	"sort"
 	"strings"
@@ -39,6 +41,30 @@ type runTarget struct {
 	target  Target
 	changed bool
 	data    string
+	stamp   string
+}
+
+// makeStamp returns the value that dependents remember for a target: the target's own data
+// combined with the stamps of its dependencies. A target that re-executed because one of its
+// inputs changed therefore looks different to its dependents in every later build as well,
+// not only in the build in which it ran.
+func makeStamp(data string, depData map[string]string) string {
+	if len(depData) == 0 {
+		return data
+	}
+
+	deps := make([]string, 0, len(depData))
+	for dep := range depData {
+		deps = append(deps, dep)
+	}
+	sort.Strings(deps)
+
+	h := sha256.New()
+	fmt.Fprintf(h, "%d:%s", len(data), data)
+	for _, dep := range deps {
+		fmt.Fprintf(h, "%d:%s%d:%s", len(dep), dep, len(depData[dep]), depData[dep])
+	}
+	return hex.EncodeToString(h.Sum(nil))
 }
 
 func (t *runTarget) Evaluate(engine runner.Engine) error {
@@ -65,7 +91,7 @@ func (t *runTarget) Evaluate(engine runner.Engine) error {
 
 		label := deps[i]
 
-		newData := dep.Target.(*runTarget).data
+		newData := dep.Target.(*runTarget).stamp
 		depData[label] = newData
 
 		prevData, ok := info.Dependencies[label]
@@ -84,6 +110,7 @@ func (t *runTarget) Evaluate(engine runner.Engine) error {
 	// If all dependencies are up-to-date, the target is up-to-date, and the target is not
 	// being forced to re-run, we can terminate here.
 	if !proj.always && depsUpToDate && upToDate && !info.Rerun {
+		t.stamp = makeStamp(t.data, depData)
 		proj.events.TargetUpToDate(label)
 		return nil
 	}
@@ -131,6 +158,7 @@ func (t *runTarget) Evaluate(engine runner.Engine) error {
 	if changed {
 		t.data = data
 	}
+	t.stamp = makeStamp(t.data, depData)
 	err = proj.saveTargetInfo(label, targetInfo{
 		Doc:          t.target.Doc(),
 		Dependencies: depData,
